@@ -2291,7 +2291,10 @@ fn eval_int_binop(
                 ));
             }
 
-            if rhs_num > u32::MAX as i64 {
+            // 0, 1 and -1 can be raised to any power without overflowing.
+            let small_base = (-1..=1).contains(&lhs_num);
+
+            if rhs_num > u32::MAX as i64 && !small_base {
                 return Err((
                     RestoreValues(vec![lhs_value.clone(), rhs_value.clone()]),
                     EvalError::Exception(ExceptionInfo {
@@ -2305,7 +2308,17 @@ fn eval_int_binop(
                 ));
             }
 
-            match lhs_num.checked_pow(rhs_num as u32) {
+            let pow = if small_base {
+                Some(if rhs_num == 0 || (lhs_num == -1 && rhs_num % 2 == 0) {
+                    1
+                } else {
+                    lhs_num
+                })
+            } else {
+                lhs_num.checked_pow(rhs_num as u32)
+            };
+
+            match pow {
                 Some(num) => Value::new(Value_::Int(num)),
                 None => {
                     return Err((
